@@ -57,10 +57,16 @@ var Variants = map[string][]Node{
 		{K: "sample", N: 2},
 		{K: "sample", D: 2},
 		{K: "sample", N: 3},
+		// durations that do not divide the distance between Go's zero time and the Unix epoch:
+		// "on the grid" is t.Truncate(d) == t, i.e. relative to Go's zero time
+		{K: "sample", D: 7},
+		{K: "sample", D: 11},
+		{K: "sample", D: 13},
 	},
 	"derivative": {
 		{K: "derivative", Fields: []string{"v"}, As: []string{"v"}, Unit: 1},
 		{K: "derivative", Fields: []string{"v"}, As: []string{"d"}, Unit: 2, NonNeg: true},
+		{K: "derivative", Fields: []string{"v"}, As: []string{"v"}, Unit: 7},
 	},
 	"changeDetect": {
 		{K: "changeDetect", Fields: []string{"v"}},
@@ -79,15 +85,18 @@ var Variants = map[string][]Node{
 		{K: "flatten", On: []string{"h", "p"}, Delim: "_"},
 		{K: "flatten", On: []string{"p"}, Delim: ".", D: 2, Drop: true},
 		{K: "flatten", On: []string{"p"}, Delim: "-", D: 2},
+		{K: "flatten", On: []string{"p"}, Delim: ".", D: 7},
 	},
 	"combine": {
 		{K: "combine", Lams: []string{"pEqX", "true"}, As: []string{"l", "r"}, Delim: ".", N: 10},
 		{K: "combine", Lams: []string{"true", "true"}, As: []string{"l", "r"}, Delim: ".", N: 2, D: 2},
+		{K: "combine", Lams: []string{"true", "pEqX"}, As: []string{"l", "r"}, Delim: ".", N: 10, D: 13},
 	},
 	"groupBy": {
 		{K: "groupBy", On: []string{"p"}},
 		{K: "groupBy", Star: true},
 		{K: "groupBy", Star: true, Excl: []string{"h"}},
+		{K: "groupBy", Star: true, Excl: []string{"p"}},
 		{K: "groupBy", On: []string{"h"}, ByName: true},
 		// two explicit dimensions: the node's sorted tag-name slice is shared by every point it emits
 		{K: "groupBy", On: []string{"p", "h"}},
@@ -115,6 +124,13 @@ func pt(name, h, p string, t int, fields map[string]Val) Pt {
 	}
 	return Pt{Name: name, Tags: tags, Fields: fields, T: t}
 }
+
+// ptt is pt with an arbitrary tag set.
+func ptt(name string, tags map[string]string, t int, fields map[string]Val) Pt {
+	return Pt{Name: name, Tags: tags, Fields: fields, T: t}
+}
+
+type T = map[string]string
 
 type F = map[string]Val
 
@@ -167,6 +183,32 @@ var Seqs = map[string][]Pt{
 		pt("m", "b", "x", 2, F{"v": fv(0.5)}),
 		pt("m", "a", "y", 2, F{"v": iv(4)}),
 	},
+	// tag KEY sets that change from point to point (same count with other names, subsets,
+	// supersets, no group tag): under groupBy(*) the dimensions of a point are a function of
+	// THAT point's tags only
+	"keys": {
+		ptt("m", T{"h": "a", "p": "x"}, 0, F{"v": iv(1)}),
+		ptt("m", T{"h": "a", "q": "u"}, 0, F{"v": iv(2)}),
+		ptt("m", T{"h": "b", "p": "y", "q": "u"}, 0, F{"v": fv(1.5)}),
+		ptt("m", T{"h": "a"}, 1, F{"v": iv(3)}),
+		ptt("m", T{"h": "b", "q": "u"}, 1, F{"v": fv(2.5)}),
+		ptt("m", T{"h": "a", "q": "w"}, 1, F{"v": iv(3), "w": iv(1)}),
+		ptt("m", T{"h": "a", "p": "x"}, 2, F{"v": iv(4)}),
+		ptt("m", T{"p": "x", "q": "u"}, 2, F{"v": iv(1)}),
+		ptt("m", T{"h": "b", "p": "y"}, 2, F{"v": fv(0.5)}),
+	},
+	// times on and off the 7s/11s/13s grids of Go's zero time (7s: 0, 11s: 0, 13s: 5) and of the
+	// Unix epoch (7s: 4, 11s: 2, 13s: 9); per group three equidistant instants, distance 4
+	"grid": {
+		pt("m", "a", "x", 0, F{"v": iv(2)}),
+		pt("m", "b", "x", 1, F{"v": fv(1.5)}),
+		pt("m", "a", "y", 4, F{"v": iv(4), "w": iv(1)}),
+		pt("m", "b", "y", 5, F{"v": fv(2.5)}),
+		pt("m", "b", "x", 5, F{"v": fv(2)}),
+		pt("m", "a", "x", 8, F{"v": iv(2)}),
+		pt("m", "b", "x", 9, F{"v": fv(0.5)}),
+		pt("m", "a", "y", 8, F{"v": iv(3)}),
+	},
 	// one field per point (flatten with dropOriginalFieldName is only defined then)
 	"single": {
 		pt("m", "a", "x", 0, F{"v": iv(1)}),
@@ -180,7 +222,7 @@ var Seqs = map[string][]Pt{
 	},
 }
 
-var SeqNames = []string{"ints", "mixed", "floats", "single", "ooo"}
+var SeqNames = []string{"ints", "mixed", "floats", "single", "ooo", "keys", "grid"}
 
 // CarrySeqs are three consecutive windows for batch inputs in which every group's
 // next batch starts with what the previous batch of that group ended with (also
